@@ -211,6 +211,8 @@ func didcommAttack(rep int) *hx.Record { //nolint:funlen,gocyclo
 	try(0, "own-live", toks[0])
 	try(1, "foreign", toks[0])
 	try(0, "never-issued", never)
+	try(0, "variant-of-own-live", spell(toks[0], spellings[rep%len(spellings)]))
+	try(1, "variant-of-foreign-live", spell(toks[0], spellings[(rep+1)%len(spellings)]))
 	ws[0].Close()
 	try(0, "closed", toks[0])
 	try(1, "foreign-closed", toks[0])
